@@ -54,6 +54,22 @@ class Check:
         for k, v in eng.inlined_fns.items(): s.functions[k] = s.functions.get(k, 0) + v
         for k, v in eng.used_models.items(): s.models_used[k] = s.models_used.get(k, 0) + v
     # ---- solver ----
+    def sliced(s, eng, fs, max_size=400):
+        """cone-of-influence slice: keep the formulas fs that are small or mention the goal's variables, and only those definitional side
+        constraints that (transitively) share a variable with them. Dropping conjuncts is sound for an unsat verdict."""
+        fs = [f for f in fs if f is not True]
+        goal = fs[-1]
+        keep = [f for f in fs[:-1] if isz(f) and eng.size_of(f) <= max_size] + [goal]
+        cone = set()
+        for f in keep:
+            if isz(f): cone |= eng.vars_of(f)
+        pool = [(c, eng.vars_of(c)) for c in eng.side]
+        chosen = [False] * len(pool); changed = True
+        while changed:
+            changed = False
+            for i, (c, vs) in enumerate(pool):
+                if not chosen[i] and (vs & cone): chosen[i] = True; cone |= vs; changed = True
+        return keep + [c for i, (c, _) in enumerate(pool) if chosen[i]]
     def query(s, name, eng, *fs, timeout=None, extra_side=True):
         """check satisfiability of side ∧ fs; returns ('sat'|'unsat'|'unknown', model|None)"""
         sol = z3.Solver(); sol.set('timeout', timeout or s.timeout_ms)
@@ -128,20 +144,23 @@ class Check:
         print(f'VIOLATION property={s.pid} replay={path}', flush=True)
         print(f'  {what}: {json.dumps(case, default=str)[:600]}', flush=True)
         return None
-    def decide(s, name, eng, ctx, goal, case_fn, what=None, roles=None, role_excl=None, vary=(), tries=6, delta=1e-3, abstract=False, nomodel_case=None):
+    def decide(s, name, eng, ctx, goal, case_fn, what=None, roles=None, role_excl=None, vary=(), tries=6, delta=1e-3, abstract=False, nomodel_case=None, slice_=False):
         """prove (ctx => not goal). On sat: replay; known roles are excluded and the query repeated; a counterexample that
         does not reproduce natively (typically a model sitting exactly on a floating-point decision boundary) is blocked with a
         neighbourhood of radius delta in the `vary` variables and the query repeated. Returns 'unsat' | 'sat' | 'unknown' | 'noreplay'.
         abstract=True: first try the LINEAR ABSTRACTION of the query (every non-linear subterm replaced by a fresh constant, linear side
         constraints only) - its unsat implies unsat of the real query (slicing, DESIGN 3.6). nomodel_case: a native search case to run when
         the solver cannot produce a model (structural obligations over oracles): only a natively reproduced failure becomes a VIOLATION."""
+        if slice_:
+            res, _ = s.query(name + ' [sliced]', None, *s.sliced(eng, list(ctx) + [goal]))
+            if res == 'unsat': return 'unsat'
         if abstract:
             res, _ = s.query(name + ' [linear abstraction]', None, *eng.side_lin, *[eng.linearize(zb(x)) for x in list(ctx) + [goal] if x is not True])
             if res == 'unsat': return 'unsat'
         excl, blocked, nore = [], [], 0
         for attempt in range(tries):
             tag = (' (known roles excluded)' if excl else '') + (f' (retry {nore})' if nore else '')
-            res, m = s.query(name + tag, eng, *ctx, goal, *excl, *blocked, timeout=(3000 if (abstract and nomodel_case is not None) else None))
+            res, m = s.query(name + tag, eng, *ctx, goal, *excl, *blocked, timeout=(3000 if ((abstract or slice_) and nomodel_case is not None) else None))
             if res == 'unsat':
                 if nore:
                     s.inconclusive.append(f'{name}: {nore} solver counterexample(s) did not reproduce natively and the rest of the space is proved; last: {s.last_noreplay}')
